@@ -300,7 +300,14 @@ func (a *Authority) UpdateProvisioner(ctx context.Context, nu *linkedca.Provisio
 		return admin.WrapErrorISE(err, "error generating provisioner config")
 	}
 
-	if err := a.checkProvisionerPolicy(ctx, nu.Name, nu.Policy); err != nil {
+	// The administrators of the provisioner are registered under the name
+	// that it has now, not under the one it is being renamed to.
+	old, _ := a.provisioners.Load(certProv.GetID())
+	adminsName := nu.Name
+	if old != nil {
+		adminsName = old.GetName()
+	}
+	if err := a.checkProvisionerPolicy(ctx, adminsName, nu.Policy); err != nil {
 		return err
 	}
 
@@ -308,7 +315,6 @@ func (a *Authority) UpdateProvisioner(ctx context.Context, nu *linkedca.Provisio
 		return admin.WrapErrorISE(err, "error initializing provisioner %s", nu.Name)
 	}
 
-	old, _ := a.provisioners.Load(certProv.GetID())
 	if err := a.provisioners.Update(certProv); err != nil {
 		return admin.WrapErrorISE(err, "error updating provisioner '%s' in authority cache", nu.Name)
 	}
